@@ -369,6 +369,21 @@ class Run:
                            for v in self.violations], f, indent=0, default=str)
         except Exception:
             pass
+        try:
+            exd = os.path.join(CACHE, "examples_%s" % self.prop)
+            os.makedirs(exd, exist_ok=True)
+            for f in os.listdir(exd):
+                os.remove(os.path.join(exd, f))
+            seen_sig = set()
+            for v in self.violations:
+                k = json.dumps((v["replay"] or {}).get("signature"), sort_keys=True, default=str) + v["kind"]
+                if k in seen_sig or len(seen_sig) > 60:
+                    continue
+                seen_sig.add(k)
+                with open(os.path.join(exd, "%03d.json" % len(seen_sig)), "w") as f:
+                    json.dump(v, f, indent=1, default=str)
+        except Exception:
+            pass
         # first report violations with a failing input, then the rest
         self.violations.sort(key=lambda v: (not v["found_input"], v["kind"] != "impl"))
         seen = set()
